@@ -227,6 +227,14 @@ def check_rng(prog: Program, rep: Report) -> None:
                        "a random source outside the module-level `random` generator is not part of the dump payload")
         random_names = {l for l, t in mi.imports.items() if t == "random"}
         from_random = {l for l, t in mi.imports.items() if t.startswith("random.")}
+        call_funcs = {id(n.func) for n in ast.walk(mi.tree) if isinstance(n, ast.Call)}
+        for n in ast.walk(mi.tree):
+            if isinstance(n, ast.Attribute) and isinstance(n.value, ast.Name) and n.value.id in random_names \
+                    and isinstance(n.ctx, ast.Load) and id(n) not in call_funcs:
+                rep.ob("R19.4-rng-not-captured", False, Loc(mi.file, n.lineno, mi.name), n,
+                       "a function of the `random` module is stored instead of called: it is a bound method of the hidden generator "
+                       "object, so an object keeping it (attribute, partial, default argument) pickles a private copy of the "
+                       "generator; after resume that copy is not the one restored by random.setstate and two streams run apart")
         for n in ast.walk(mi.tree):
             if isinstance(n, ast.Call):
                 f = norm(n.func)
@@ -251,6 +259,8 @@ def check_rng(prog: Program, rep: Report) -> None:
                     rep.ob("R19.4-entropy-source", ok, Loc(mi.file, n.lineno, mi.name), n,
                            "fresh entropy outside base/uuid.py (whose value is dumped) makes the resumed run differ")
     rep.unit("random_call_sites", n_draws)
+    rep.ob("R19.4-rng-not-captured", True, Loc("jellyfysh", 0, ""), "no stored reference to a function of the random module", "",
+           nontrivial=False)
     # set iteration inventory
     set_returning = {"_get_bases_names"}
     for mi0, ci0, fn0 in prog.functions():
@@ -422,6 +432,9 @@ HS = "jellyfysh/scheduler/heap_scheduler/heap_scheduler.py"
 MI = "jellyfysh/potential/merged_image_coulomb_potential/merged_image_coulomb_potential.py"
 DO = "jellyfysh/input_output_handler/output_handler/dumping_output_handler.py"
 MUTANTS = [
+    Edit("walker keeps bound samplers", "jellyfysh/event_handler/walker.py",
+         r"(class Walker\(object\):(?:.*?\n)*?    def __init__\(self[^\n]*\n(?:        [^\n]*\n|\n)*?)(        self\._)",
+         r"\1        self._draw = random.uniform\n\2", "R19.4-rng-not-captured", regex=True),
     Edit("excluded cells tagger iterates the raw set of cells (the repaired defect)", "jellyfysh/activator/tagger/excluded_cells_tagger.py",
          "for nearby_cell in sorted(self._internal_state.cells.nearby_cells(active_cell),\n"
          "                                                  key=lambda cell: cell.identifier)",
